@@ -2582,7 +2582,10 @@ void Analyser::AnalyserImpl::analyseModel(const ModelPtr &model)
     // Mark some variables as external variables, should there be some and
     // should they belong to the model being analysed.
 
-    std::map<VariablePtr, VariablePtrs> primaryExternalVariables;
+    // (Kept in the order in which the primary variables are met, so that the
+    // messages below come out in an order that only depends on the model.)
+
+    std::vector<std::pair<VariablePtr, VariablePtrs>> primaryExternalVariables;
 
     if (!mExternalVariables.empty()) {
         for (const auto &externalVariable : mExternalVariables) {
@@ -2602,7 +2605,15 @@ void Analyser::AnalyserImpl::analyseModel(const ModelPtr &model)
             } else {
                 auto internalVariable = Analyser::AnalyserImpl::internalVariable(variable);
 
-                primaryExternalVariables[internalVariable->mVariable].push_back(variable);
+                auto primaryExternalVariable = std::find_if(primaryExternalVariables.begin(), primaryExternalVariables.end(), [=](const auto &entry) {
+                    return entry.first == internalVariable->mVariable;
+                });
+
+                if (primaryExternalVariable == primaryExternalVariables.end()) {
+                    primaryExternalVariables.emplace_back(internalVariable->mVariable, VariablePtrs {variable});
+                } else {
+                    primaryExternalVariable->second.push_back(variable);
+                }
 
                 if (!internalVariable->mIsExternal) {
                     internalVariable->mIsExternal = true;
